@@ -3772,17 +3772,19 @@ impl Interpreter {
         self.root_guard.guard(module_env.clone());
         self.env = module_env.cheap_clone();
 
-        // Set up import bindings before bytecode execution
-        self.setup_import_bindings(&program)?;
-
-        // Execute the module body using bytecode
-        let result = self.execute_program_bytecode(&program);
+        // Set up import bindings, then execute the module body using bytecode
+        let result = self
+            .setup_import_bindings(&program)
+            .and_then(|_| self.execute_program_bytecode(&program));
 
         // Restore environment
         self.env = saved_env;
 
-        // Handle errors
-        result?;
+        // Handle errors: the importer's exports come back, the failed module's are dropped
+        if let Err(e) = result {
+            self.exports = saved_exports;
+            return Err(e);
+        }
 
         // Create module namespace object from exports
         let module_obj = self.create_object(guard);
